@@ -16,6 +16,13 @@ def runeError : Rune := 0xFFFD
 
 @[inline] def isCont (b : UInt8) : Bool := 0x80 ≤ b && b ≤ 0xBF
 
+/-- accept range of the second byte after a 3-byte lead `b0` (0xE0..0xEF) -/
+def lo3 (b0 : UInt8) : UInt8 := if b0 == 0xE0 then 0xA0 else 0x80
+def hi3 (b0 : UInt8) : UInt8 := if b0 == 0xED then 0x9F else 0xBF
+/-- accept range of the second byte after a 4-byte lead `b0` (0xF0..0xF4) -/
+def lo4 (b0 : UInt8) : UInt8 := if b0 == 0xF0 then 0x90 else 0x80
+def hi4 (b0 : UInt8) : UInt8 := if b0 == 0xF4 then 0x8F else 0xBF
+
 /-- Decode the rune starting with byte `b0` followed by `rest`.
     Returns the rune and the number `k` of bytes of `rest` that were consumed (0..3). -/
 def decode1 (b0 : UInt8) (rest : Bytes) : Rune × Nat :=
@@ -29,18 +36,14 @@ def decode1 (b0 : UInt8) (rest : Bytes) : Rune × Nat :=
   else if b0 < 0xF0 then
     match rest with
     | b1 :: b2 :: _ =>
-      let lo : UInt8 := if b0 == 0xE0 then 0xA0 else 0x80
-      let hi : UInt8 := if b0 == 0xED then 0x9F else 0xBF
-      if lo ≤ b1 && b1 ≤ hi && isCont b2 then
+      if lo3 b0 ≤ b1 && b1 ≤ hi3 b0 && isCont b2 then
         (Int.ofNat ((b0.toNat - 0xE0) * 4096 + (b1.toNat - 0x80) * 64 + (b2.toNat - 0x80)), 2)
       else (runeError, 0)
     | _ => (runeError, 0)
   else if b0 < 0xF5 then
     match rest with
     | b1 :: b2 :: b3 :: _ =>
-      let lo : UInt8 := if b0 == 0xF0 then 0x90 else 0x80
-      let hi : UInt8 := if b0 == 0xF4 then 0x8F else 0xBF
-      if lo ≤ b1 && b1 ≤ hi && isCont b2 && isCont b3 then
+      if lo4 b0 ≤ b1 && b1 ≤ hi4 b0 && isCont b2 && isCont b3 then
         (Int.ofNat ((b0.toNat - 0xF0) * 262144 + (b1.toNat - 0x80) * 4096 + (b2.toNat - 0x80) * 64 + (b3.toNat - 0x80)), 3)
       else (runeError, 0)
     | _ => (runeError, 0)
